@@ -467,4 +467,234 @@ example : (3 : Nat) < 2 ^ 63 ∧ ((exec (memzero16_s 0 3 none)
       { data := fun _ => 7, mapped := fun _ => true, rd := fun _ => true, wr := fun _ => true }).toOption.map
         (fun x => (x.1, x.2.events))) = some (memzero16Code 0 3, [.handler .mem ESNULLP]) := by decide
 
+/-! ## the in-place setters `strzero_s`, `strset_s`, `strnset_s` (str handler; object size known or not)
+
+Their codes do not depend on the cells (an unterminated `dest` is a `@pre` without a `@retval`: the loops stop after
+`dmax` cells and nothing is reported).  With a KNOWN object size above RSIZE_MAX_STR the limit check is skipped
+(`CHK_DEST_OVR` only; known finding `bos-known-skips-limit`): `_partial` under `BosSmall`, + witness. -/
+
+/-- the shared `dmax` lines: `ESLEMAX when dmax > RSIZE_MAX_STR`, `EOVERFLOW when dmax > size of dest`, else `c` -/
+def dmaxCode (dmax : Nat) (destbos : Bos) (c : Nat) : Nat :=
+  if dmax > RSIZE_MAX_STR then ESLEMAX
+  else match destbos with
+    | none => c
+    | some b => if dmax > b then EOVERFLOW else c
+
+/-- a known object size is a possible one for a string (the hypothesis the proofs force) -/
+def BosSmall (destbos : Bos) : Prop := ∀ b, destbos = some b → b ≤ RSIZE_MAX_STR
+
+theorem dmaxCode_eok_iff (dmax : Nat) (destbos : Bos) (c : Nat) :
+    dmaxCode dmax destbos c = EOK ↔ dmax ≤ RSIZE_MAX_STR ∧ (∀ b, destbos = some b → dmax ≤ b) ∧ c = EOK := by
+  have e2 : ESLEMAX ≠ EOK := by decide
+  have e3 : EOVERFLOW ≠ EOK := by decide
+  unfold dmaxCode
+  split
+  · simp only [e2, false_iff]; omega
+  · cases destbos with
+    | none => simp; omega
+    | some b =>
+      dsimp only
+      split
+      · simp only [e3, false_iff]; intro ⟨_, h, _⟩; have := h b rfl; omega
+      · simp only [Option.some.injEq, forall_eq']; omega
+
+theorem is_chkDmax (dmax : Nat) (destbos : Bos) (hb : BosSmall destbos) {k : Prog Nat} {c : Nat}
+    (hk : EV k (Is .str c)) : EV (chkDmax dmax destbos RSIZE_MAX_STR k) (Is .str (dmaxCode dmax destbos c)) := by
+  cases destbos with
+  | none =>
+    by_cases h : dmax > RSIZE_MAX_STR
+    · simp only [chkDmax, dmaxCode, h, if_true]; exact is_failS _ (by decide)
+    · simp only [chkDmax, dmaxCode, h, if_false]; exact hk
+  | some b =>
+    have hb' : b ≤ RSIZE_MAX_STR := hb b rfl
+    by_cases h1 : dmax > b
+    · by_cases h : dmax > RSIZE_MAX_STR
+      · simp only [chkDmax, dmaxCode, h, h1, if_true]; exact is_failS _ (by decide)
+      · simp only [chkDmax, dmaxCode, h, h1, if_true, if_false]; exact is_failS _ (by decide)
+    · have h : ¬ dmax > RSIZE_MAX_STR := by omega
+      simp only [chkDmax, dmaxCode, h, h1, if_false]; exact hk
+
+/-- src/extstr/strzero_s.c: `@retval EOK when successful operation`, `ESNULLP when dest is NULL pointer`,
+`ESZEROL when dmax = 0`, `ESLEMAX when dmax > RSIZE_MAX_STR`, `EOVERFLOW when dmax > size of dest` -/
+def strzeroCode (dest dmax : Nat) (destbos : Bos) : Nat :=
+  if dest = 0 then ESNULLP
+  else if dmax = 0 then ESZEROL
+  else dmaxCode dmax destbos EOK
+
+/- FULL statement (no `BosSmall`), false of the code: `strzero_s_meaning_witness` -/
+theorem strzero_s_code_partial (cfg : Cfg) (dest dmax : Nat) (destbos : Bos) (hb : BosSmall destbos) :
+    EV (strzero_s cfg dest dmax destbos) (Is .str (strzeroCode dest dmax destbos)) := by
+  by_cases h1 : dest = 0
+  · simp only [strzero_s, strzeroCode, h1, if_true]; exact is_failS _ (by decide)
+  by_cases h2 : dmax = 0
+  · simp only [strzero_s, strzeroCode, h1, h2, if_true, if_false]; exact is_failS _ (by decide)
+  simp only [strzero_s, strzeroCode, h1, h2, if_false]
+  refine is_chkDmax _ _ hb ?_
+  exact EV.bindSilent (setLoop_silent _ _ _) (fun x _ => EV.bindSilent (slackTail_silent cfg x.1 x.2) (fun _ _ => is_eok))
+
+/-- strzero_s, object size unknown or a possible string size: the code is `strzeroCode` of the arguments, whatever the
+cells hold; reported exactly once iff ≠ EOK -/
+theorem strzero_s_meaning_partial (cfg : Cfg) (dest dmax : Nat) (destbos : Bos) (hb : BosSmall destbos)
+    (st : St) (r : Nat) (st' : St) (he : exec (strzero_s cfg dest dmax destbos) st = .ok (r, st')) :
+    r = strzeroCode dest dmax destbos ∧
+      ((r = EOK ∧ st'.events = st.events) ∨ (r ≠ EOK ∧ st'.events = st.events ++ [.handler .str r])) :=
+  Is.sound (strzero_s_code_partial cfg dest dmax destbos hb) st r st' he
+
+/-- strzero_s with the object size unknown: the FULL statement -/
+theorem strzero_s_meaning (cfg : Cfg) (dest dmax : Nat) (st : St) (r : Nat) (st' : St)
+    (he : exec (strzero_s cfg dest dmax none) st = .ok (r, st')) :
+    r = strzeroCode dest dmax none ∧
+      ((r = EOK ∧ st'.events = st.events) ∨ (r ≠ EOK ∧ st'.events = st.events ++ [.handler .str r])) :=
+  strzero_s_meaning_partial cfg dest dmax none (fun _ h => by cases h) st r st' he
+
+/-- the excluded point: a known object size above the limit and `dmax` above the limit within it: EOK, no report
+(doc comment: ESLEMAX).  Run without the null-slack clearing only to keep the kernel evaluation short (the clearing of
+4097 cells emits nothing either: `slackTail_silent`). -/
+theorem strzero_s_meaning_witness :
+    ((exec (strzero_s { slack := false } 100 (RSIZE_MAX_STR + 1) (some (RSIZE_MAX_STR + 2)))
+      { data := fun _ => 0, mapped := fun _ => true, rd := fun _ => true, wr := fun _ => true }).toOption.map
+        (fun x => (x.1, x.2.events))) = some (EOK, []) ∧
+      strzeroCode 100 (RSIZE_MAX_STR + 1) (some (RSIZE_MAX_STR + 2)) = ESLEMAX := by
+  decide
+
+theorem strzeroCode_eok_iff (dest dmax : Nat) (destbos : Bos) :
+    strzeroCode dest dmax destbos = EOK ↔
+      dest ≠ 0 ∧ dmax ≠ 0 ∧ dmax ≤ RSIZE_MAX_STR ∧ ∀ b, destbos = some b → dmax ≤ b := by
+  have e1 : ESNULLP ≠ EOK := by decide
+  have e2 : ESZEROL ≠ EOK := by decide
+  unfold strzeroCode
+  split
+  · simp only [e1, false_iff]; omega
+  split
+  · simp only [e2, false_iff]; omega
+  rw [dmaxCode_eok_iff]
+  simp only [and_true, ne_eq, true_and, not_false_eq_true, *]
+
+/-- src/extstr/strset_s.c: as strzero_s plus `ESLEMAX when value > 255` (`(unsigned)value > 255`) -/
+def strsetCode (dest dmax value : Nat) (destbos : Bos) : Nat :=
+  if dest = 0 then ESNULLP
+  else if dmax = 0 then ESZEROL
+  else dmaxCode dmax destbos (if arg32 value > 255 then ESLEMAX else EOK)
+
+theorem strset_s_code_partial (cfg : Cfg) (dest dmax value : Nat) (destbos : Bos) (hb : BosSmall destbos) :
+    EV (strset_s cfg dest dmax value destbos) (Is .str (strsetCode dest dmax value destbos)) := by
+  by_cases h1 : dest = 0
+  · simp only [strset_s, strsetCode, h1, if_true]; exact is_failS _ (by decide)
+  by_cases h2 : dmax = 0
+  · simp only [strset_s, strsetCode, h1, h2, if_true, if_false]; exact is_failS _ (by decide)
+  simp only [strset_s, strsetCode, h1, h2, if_false]
+  refine is_chkDmax _ _ hb ?_
+  by_cases h3 : arg32 value > 255
+  · simp only [h3, if_true]; exact is_failS _ (by decide)
+  · simp only [h3, if_false]
+    exact EV.bindSilent (setLoop_silent _ _ _) (fun x _ => EV.bindSilent (slackTail_silent cfg x.1 x.2) (fun _ _ => is_eok))
+
+/-- strset_s, object size unknown or a possible string size: the code is `strsetCode` of the arguments -/
+theorem strset_s_meaning_partial (cfg : Cfg) (dest dmax value : Nat) (destbos : Bos) (hb : BosSmall destbos)
+    (st : St) (r : Nat) (st' : St) (he : exec (strset_s cfg dest dmax value destbos) st = .ok (r, st')) :
+    r = strsetCode dest dmax value destbos ∧
+      ((r = EOK ∧ st'.events = st.events) ∨ (r ≠ EOK ∧ st'.events = st.events ++ [.handler .str r])) :=
+  Is.sound (strset_s_code_partial cfg dest dmax value destbos hb) st r st' he
+
+/-- strset_s with the object size unknown: the FULL statement -/
+theorem strset_s_meaning (cfg : Cfg) (dest dmax value : Nat) (st : St) (r : Nat) (st' : St)
+    (he : exec (strset_s cfg dest dmax value none) st = .ok (r, st')) :
+    r = strsetCode dest dmax value none ∧
+      ((r = EOK ∧ st'.events = st.events) ∨ (r ≠ EOK ∧ st'.events = st.events ++ [.handler .str r])) :=
+  strset_s_meaning_partial cfg dest dmax value none (fun _ h => by cases h) st r st' he
+
+theorem strset_s_meaning_witness :
+    ((exec (strset_s { slack := false } 100 (RSIZE_MAX_STR + 1) 65 (some (RSIZE_MAX_STR + 2)))
+      { data := fun _ => 0, mapped := fun _ => true, rd := fun _ => true, wr := fun _ => true }).toOption.map
+        (fun x => (x.1, x.2.events))) = some (EOK, []) ∧
+      strsetCode 100 (RSIZE_MAX_STR + 1) 65 (some (RSIZE_MAX_STR + 2)) = ESLEMAX := by
+  decide
+
+theorem strsetCode_eok_iff (dest dmax value : Nat) (destbos : Bos) :
+    strsetCode dest dmax value destbos = EOK ↔
+      dest ≠ 0 ∧ dmax ≠ 0 ∧ dmax ≤ RSIZE_MAX_STR ∧ (∀ b, destbos = some b → dmax ≤ b) ∧ arg32 value ≤ 255 := by
+  have e1 : ESNULLP ≠ EOK := by decide
+  have e2 : ESZEROL ≠ EOK := by decide
+  have e3 : ESLEMAX ≠ EOK := by decide
+  unfold strsetCode
+  split
+  · simp only [e1, false_iff]; omega
+  split
+  · simp only [e2, false_iff]; omega
+  rw [dmaxCode_eok_iff]
+  split
+  · simp only [e3, and_false, false_iff]; omega
+  · rename_i h1 h2 h3; simp only [ne_eq, h1, h2, not_false_eq_true, true_and, and_true]; have : arg32 value ≤ 255 := by omega
+    simp only [this, and_true]
+
+/-- src/extstr/strnset_s.c: as strset_s plus `ESNOSPC when n > dmax` -/
+def strnsetCode (dest dmax value n : Nat) (destbos : Bos) : Nat :=
+  if dest = 0 then ESNULLP
+  else if dmax = 0 then ESZEROL
+  else dmaxCode dmax destbos (if arg32 value > 255 then ESLEMAX else if n > dmax then ESNOSPC else EOK)
+
+theorem strnset_s_code_partial (cfg : Cfg) (dest dmax value n : Nat) (destbos : Bos) (hb : BosSmall destbos) :
+    EV (strnset_s cfg dest dmax value n destbos) (Is .str (strnsetCode dest dmax value n destbos)) := by
+  by_cases h1 : dest = 0
+  · simp only [strnset_s, strnsetCode, h1, if_true]; exact is_failS _ (by decide)
+  by_cases h2 : dmax = 0
+  · simp only [strnset_s, strnsetCode, h1, h2, if_true, if_false]; exact is_failS _ (by decide)
+  simp only [strnset_s, strnsetCode, h1, h2, if_false]
+  refine is_chkDmax _ _ hb ?_
+  by_cases h3 : arg32 value > 255
+  · simp only [h3, if_true]; exact is_failS _ (by decide)
+  by_cases h4 : n > dmax
+  · simp only [h3, h4, if_true, if_false]; exact is_failS _ (by decide)
+  · simp only [h3, h4, if_false]
+    exact EV.bindSilent (setLoop_silent _ _ _) (fun x _ => EV.bindSilent (slackTail_silent cfg x.1 _) (fun _ _ => is_eok))
+
+/-- strnset_s, object size unknown or a possible string size: the code is `strnsetCode` of the arguments -/
+theorem strnset_s_meaning_partial (cfg : Cfg) (dest dmax value n : Nat) (destbos : Bos) (hb : BosSmall destbos)
+    (st : St) (r : Nat) (st' : St) (he : exec (strnset_s cfg dest dmax value n destbos) st = .ok (r, st')) :
+    r = strnsetCode dest dmax value n destbos ∧
+      ((r = EOK ∧ st'.events = st.events) ∨ (r ≠ EOK ∧ st'.events = st.events ++ [.handler .str r])) :=
+  Is.sound (strnset_s_code_partial cfg dest dmax value n destbos hb) st r st' he
+
+/-- strnset_s with the object size unknown: the FULL statement -/
+theorem strnset_s_meaning (cfg : Cfg) (dest dmax value n : Nat) (st : St) (r : Nat) (st' : St)
+    (he : exec (strnset_s cfg dest dmax value n none) st = .ok (r, st')) :
+    r = strnsetCode dest dmax value n none ∧
+      ((r = EOK ∧ st'.events = st.events) ∨ (r ≠ EOK ∧ st'.events = st.events ++ [.handler .str r])) :=
+  strnset_s_meaning_partial cfg dest dmax value n none (fun _ h => by cases h) st r st' he
+
+theorem strnset_s_meaning_witness :
+    ((exec (strnset_s { slack := false } 100 (RSIZE_MAX_STR + 1) 65 1 (some (RSIZE_MAX_STR + 2)))
+      { data := fun _ => 0, mapped := fun _ => true, rd := fun _ => true, wr := fun _ => true }).toOption.map
+        (fun x => (x.1, x.2.events))) = some (EOK, []) ∧
+      strnsetCode 100 (RSIZE_MAX_STR + 1) 65 1 (some (RSIZE_MAX_STR + 2)) = ESLEMAX := by
+  decide
+
+theorem strnsetCode_eok_iff (dest dmax value n : Nat) (destbos : Bos) :
+    strnsetCode dest dmax value n destbos = EOK ↔
+      dest ≠ 0 ∧ dmax ≠ 0 ∧ dmax ≤ RSIZE_MAX_STR ∧ (∀ b, destbos = some b → dmax ≤ b) ∧ arg32 value ≤ 255 ∧ n ≤ dmax := by
+  have e1 : ESNULLP ≠ EOK := by decide
+  have e2 : ESZEROL ≠ EOK := by decide
+  have e3 : ESLEMAX ≠ EOK := by decide
+  have e4 : ESNOSPC ≠ EOK := by decide
+  unfold strnsetCode
+  split
+  · simp only [e1, false_iff]; omega
+  split
+  · simp only [e2, false_iff]; omega
+  rw [dmaxCode_eok_iff]
+  split
+  · simp only [e3, and_false, false_iff]; omega
+  split
+  · simp only [e4, and_false, false_iff]; omega
+  · rename_i h1 h2 h3 h4; simp only [ne_eq, h1, h2, not_false_eq_true, true_and, and_true]
+    have a : arg32 value ≤ 255 := by omega
+    have b : n ≤ dmax := by omega
+    simp only [a, b, and_true]
+
+/-- non-vacuity: a known-size run inside `BosSmall` that reports EOVERFLOW -/
+example : BosSmall (some 4) ∧ ((exec (strnset_s {} 100 5 65 1 (some 4))
+      { data := fun _ => 66, mapped := fun _ => true, rd := fun _ => true, wr := fun _ => true }).toOption.map
+        (fun x => (x.1, x.2.events))) = some (strnsetCode 100 5 65 1 (some 4), [.handler .str EOVERFLOW]) :=
+  ⟨fun b h => by cases h; decide, by decide⟩
+
 end SafeC.Props.C05Meaning
